@@ -224,7 +224,7 @@ for _k, _fs in {"C01": ["ApiIntoServer", "Formulas"], "C03": ["Formulas"], "C02"
 # third build session: interleave / u / session key, random-draw functions, API constructors and registration,
 # cipher-object constructors incl. Rc4::new + key schedule and Wrath InnerCrypto::new, PIN hash, matrix-card verifier
 for _k, _fs in {"C01": ["Interleave", "ApiCtors", "KeyCheck", "ApiClientProof"], "C02": ["Interleave"], "C03": ["Interleave", "ApiCtors"], "C15": ["Draws", "ApiCtors"],
-                "C07": ["Ctors", "IoWrappers"], "C08": ["Ctors", "IoWrappers"], "C09": ["Ctors"], "C10": ["Ctors"], "C11": ["Ctors"], "C12": ["Ctors"], "C18": ["MatrixProof"],
+                "C07": ["Ctors", "IoWrappers"], "C08": ["Ctors", "IoWrappers"], "C09": ["Ctors", "Wrath", "IoWrath"], "C10": ["Ctors"], "C11": ["Ctors"], "C12": ["Ctors", "IoWrappers", "IoWrath", "HelpersVanilla", "HelpersTbc", "Wrath"], "C18": ["MatrixProof"],
                 "C17": ["Integrity"], "C06": ["Digests"], "C05": ["Digests", "Accessors"], "C04": ["KeyCheck"]}.items():
     STEP_FILES[_k] = STEP_FILES.get(_k, []) + [f for f in _fs if f not in STEP_FILES.get(_k, [])]
 for _k, _fs in {"C06": ["Accessors", "Draws"], "C18": ["Accessors"], "C15": ["KeyCheck"], "C01": ["Digests", "Accessors"], "C02": ["Digests", "Accessors"], "C03": ["Digests", "Accessors", "KeyCheck"], "C19": ["KeyCheck"]}.items():
